@@ -821,13 +821,14 @@ def run(tier, seed):
     r, terrs, note = check_tables(wd, g, lkrows)
     res.states += r["distinct"] or 0
     res.transitions += r["generated"] or 0
-    nlk = 0
-    for e in terrs:
+    nlk, per_fam = 0, {}
+    for e in sorted(terrs, key=lambda e: e.get("row", 0)):
         if "row" in e:
-            # one replay per (family, position set): the same slip shows in hundreds of rows
+            # at most two replays per family of blocks: the same slip shows in hundreds of rows
             row = lkrows[e["row"] - 1]
             nlk += 1
-            if nlk > 6:
+            per_fam[row["fam"]] = per_fam.get(row["fam"], 0) + 1
+            if per_fam[row["fam"]] > 2:
                 continue
             desc = "C11 T: %s: %s under %s denotes %s, but %s" % (
                 e["req"], row["n"], lk_text([(x["n"], x["c"]) for x in row["lk"]]).strip() or "(no deflocalkeys)", e["denotes"],
